@@ -14,7 +14,9 @@ CHECKS = {
             "Coq theorems (Props/C05.v: c05_frame, c05_real, c05_sinks) about the executable model Model/Writer.v of "
             "MultiLineWriter+BufWriter, for all capacities, terminators, histories and fault scripts; the model is tied "
             "to io.rs on every run by a correspondence check (exhaustive small scope + boundary + random histories on "
-            "the real MultiLineWriter / BufferedSpyMetricSink vs the extracted model) and the framing clause is also "
+            "the real MultiLineWriter / BufferedSpyMetricSink vs the extracted model, under every placement of ok / error "
+            "(12 io::ErrorKinds) / interrupted outcomes, capacities 0..65536 incl. the 8192 boundary of std's default BufWriter, "
+            "both constructors; a sample of the run's cases is re-proved by vm_compute in Coq) and the framing clause is also "
             "evaluated on the implementation's own log",
             TRUST + "modelled not verified: std BufWriter; assumes an all-or-nothing underlying writer whose flush succeeds",
             "machine-checked proof (Coq 8.16) on a hand-written model + differential correspondence check",
@@ -24,7 +26,10 @@ CHECKS = {
             "Model/Writer.v for a never-failing underlying writer, all capacities/terminators/histories: every emit is "
             "acknowledged with its length, the successful line writes carry exactly the emitted fitting metrics once and "
             "in order, oversized ones go out alone during their own emit, a successful flush leaves nothing buffered; "
-            "tied to io.rs by the correspondence check, conservation clauses also evaluated on the implementation's log",
+            "tied to io.rs by the correspondence check, conservation clauses also evaluated on the implementation's log; "
+            "flushes through StatsdClient::flush and through a QueuingMetricSink are exercised on the real stack (family QF: "
+            "worker parked to create a backlog, calls that reach the buffered sink replayed in the model, clause 'flush Ok => "
+            "everything the buffered sink had accepted has been written')",
             TRUST + "modelled not verified: std BufWriter; zero-length lines excluded from identity statements; "
             "client.flush / queuing flush delegation validated by the harness only",
             "machine-checked proof (Coq 8.16) on a hand-written model + differential correspondence check",
